@@ -45,6 +45,10 @@ def _nfacets(c):
     return len(sub_entities(c, TDIM[c] - 1))
 
 
+def _facet_verts(c, f):
+    return sub_entities(c, TDIM[c] - 1)[f]
+
+
 def FJ(c):
     t = TDIM[c]
     return [[[_tag(1, f, i, j) for j in range(t - 1)] for i in range(t)] for f in range(_nfacets(c))]
@@ -68,11 +72,8 @@ def VOL(c):
 
 
 def FVOL(c):
-    return [_tag(6, TDIM[c])] * _nfacets(c)
-
-
-def _facet_verts(c, f):
-    return sub_entities(c, TDIM[c] - 1)[f]
+    # facets of one shape have one reference volume; the triangular and quadrilateral facets of a prism / pyramid differ
+    return [_tag(6, TDIM[c], len(_facet_verts(c, f))) for f in range(_nfacets(c))]
 
 
 def _coord(restr, nverts, v, i):
@@ -111,6 +112,9 @@ def _spec_table():
     return [
         ("ReferenceCellVolume", ("triangle", "hexahedron"), [cell, ext], lambda c: [()], lambda c, r, ent, comp: VOL(c)),
         ("ReferenceFacetVolume", ("triangle", "tetrahedron", "hexahedron"), [ext, intm], lambda c: [()], lambda c, r, ent, comp: FVOL(c)[0]),
+        # cells whose facets differ in shape: rejected today (a Python exception from the accessor or the table writer is a valid answer);
+        # if accepted, the value must be the volume of the current facet
+        ("ReferenceFacetVolume", ("prism",), [ext], lambda c: [()], lambda c, r, ent, comp: FVOL(c)[ent], "may-reject"),
         ("ReferenceNormal", ("triangle", "tetrahedron", "hexahedron"), [ext, intp, intm], lambda c: [(0,), (TDIM[c] - 1,)], lambda c, r, ent, comp: NORMALS(c)[ent][comp[0]]),
         ("CellFacetJacobian", ("triangle", "tetrahedron", "prism"), [ext, intp, intm], lambda c: [(0, 0), (TDIM[c] - 1, TDIM[c] - 2)],
          lambda c, r, ent, comp: FJ(c)[ent][comp[0]][comp[1]]),
@@ -166,7 +170,9 @@ def geom_access(repo, res):
             it.overrides[f"ufl.geometry.{nm}"] = _Cls(nm)
         return it
 
-    for qcls, cells, itypes, comps_of, spec in _spec_table():
+    for entry in _spec_table():
+        qcls, cells, itypes, comps_of, spec = entry[:5]
+        may_reject = len(entry) > 5
         for c in cells:
             nverts = len(GEOM[c])
             scalar = Node("Element", reference_value_size=1, block_size=1, dim=nverts, entity_dofs=[[[v] for v in range(nverts)]] + [[[] for _ in d] for d in topology(c)[1:]],
@@ -198,7 +204,8 @@ def geom_access(repo, res):
                         rule_ = Node("QuadratureRule", id=_PyCall(lambda: "r0"))
                         expr = it.call_f(get, [access, mt, None, rule_])
                     except Raised as e:
-                        res.fail(key, f"FFCXBackendAccess.get raises ({e.what}) for {qcls} on a {c} in a {itype} integral", loc)
+                        if not may_reject:
+                            res.fail(key, f"FFCXBackendAccess.get raises ({e.what}) for {qcls} on a {c} in a {itype} integral", loc)
                         continue
                     ok = True
                     for modname, cls in gens:
@@ -217,7 +224,8 @@ def geom_access(repo, res):
                         try:
                             parts = it.call_f(g, [byname[p_] for p_ in g.params])
                         except Raised as e:
-                            res.fail(key, f"{cls}.generate_geometry_tables raises ({e.what}) for a kernel that uses {qcls} on a {c}, although the accessor accepts it", loc)
+                            if not may_reject:
+                                res.fail(key, f"{cls}.generate_geometry_tables raises ({e.what}) for a kernel that uses {qcls} on a {c}, although the accessor accepts it", loc)
                             ok = False
                             continue
                         declared = {}
